@@ -252,11 +252,18 @@ class Ctx:
 
 # ----------------------------------------------------------------------------- known findings
 def load_findings():
-    p = os.path.join(VERIF, "known_findings.json")
-    if os.path.exists(p):
-        with open(p) as f:
-            return json.load(f)
-    return {"open": [], "fixed": []}
+    """known findings: one committed fragment per property under findings.d/ (assembled for readers into
+    known_findings.json by tools/mkmanifest.py). Never written at run time."""
+    res = {"open": [], "fixed": []}
+    d = os.path.join(VERIF, "findings.d")
+    if os.path.isdir(d):
+        for fn in sorted(os.listdir(d)):
+            if fn.endswith(".json"):
+                with open(os.path.join(d, fn)) as f:
+                    frag = json.load(f)
+                res["open"].extend(frag.get("open", []))
+                res["fixed"].extend(frag.get("fixed", []))
+    return res
 
 
 # ----------------------------------------------------------------------------- proof gate
@@ -276,7 +283,11 @@ def forbidden_scan():
 def proof_gate(ctx, thorough_chk=False):
     """Build the development, re-check the property file, collect Print Assumptions.
     Returns (ok, message)."""
-    rc, out = sh([os.path.join(COQ, "build.sh")], timeout=3600)
+    targets = ["Props/%s.vo" % ctx.prop]
+    runner = os.path.join(COQ, ctx.prop, "Runner.v")
+    if os.path.exists(runner):
+        targets.append("%s/Runner.vo" % ctx.prop)
+    rc, out = sh([os.path.join(COQ, "build.sh")] + targets, timeout=3600)
     if rc != 0:
         return False, "coq build failed:\n" + out[-4000:]
     hits = forbidden_scan()
